@@ -32,8 +32,10 @@ from ..ref.wfref import CTX
 PROPERTY = 'C17'
 LEVEL = 'exploration'
 RULE = (
-    'Construction scripts of 2-10 builder operations (add_task with 0-4 predecessors given as Task or list in '
-    'arbitrary order; insert_workflow of a 1-4 task sub-workflow given as Workflow or WorkflowBuilder with '
+    'Construction scripts (optionally starting from WorkflowBuilder(tasks=[0-3 tasks])) of 2-10 builder operations '
+    '(add_task of a new task with 0-4 predecessors given as Task or list in arbitrary order, optionally one of them '
+    'a task not yet in the builder; add_task on a task ALREADY in the builder declaring further predecessors that '
+    'are not its descendants; insert_workflow of a 1-4 task sub-workflow given as Workflow or WorkflowBuilder with '
     'explicit or default predecessors in the arities N:N, N:1, 1:N; WorkflowBuilder + Workflow and Workflow + '
     'Workflow; replace_task; insert_context) over <=12 tasks, closed by one sink that collects all open outputs '
     '(in a permuted order) plus up to 2 inner tasks. Task functions f(*args)->(label,args) / '
@@ -67,20 +69,21 @@ SUB = st.fixed_dictionaries(
     dict(t=st.lists(TASK, min_size=1, max_size=4), p=st.lists(st.lists(st.integers(0, 5), max_size=2), min_size=4, max_size=4))
 )
 IDX = st.integers(0, 23)
-OP_ADD = st.fixed_dictionaries(dict(o=st.just('add'), t=TASK, p=st.lists(IDX, max_size=4), single=st.booleans()))
+OP_ADD = st.fixed_dictionaries(dict(o=st.just('add'), t=TASK, p=st.lists(IDX, max_size=4), single=st.booleans(), fresh=st.integers(0, 11), ft=TASK))
+OP_LINK = st.fixed_dictionaries(dict(o=st.just('link'), i=IDX, p=st.lists(IDX, max_size=3), single=st.booleans()))
 OP_INS = st.fixed_dictionaries(
     dict(o=st.just('ins'), w=SUB, p=st.one_of(st.none(), st.lists(IDX, max_size=4)), b=st.booleans(), single=st.booleans())
 )
 OP_PLUS = st.fixed_dictionaries(dict(o=st.just('plus'), w=SUB, v=st.integers(0, 1)))
 OP_REP = st.fixed_dictionaries(dict(o=st.just('rep'), i=IDX, t=TASK))
 OP_CTX = st.fixed_dictionaries(dict(o=st.just('ctx')))
-OPS_PLAIN = st.one_of(OP_ADD, OP_ADD, OP_ADD, OP_ADD, OP_INS, OP_INS, OP_INS, OP_PLUS)
-OPS_ALL = st.one_of(OP_ADD, OP_ADD, OP_ADD, OP_ADD, OP_INS, OP_INS, OP_INS, OP_PLUS, OP_REP, OP_REP, OP_CTX)
+OPS_PLAIN = st.one_of(OP_ADD, OP_ADD, OP_ADD, OP_ADD, OP_LINK, OP_LINK, OP_INS, OP_INS, OP_INS, OP_PLUS)
+OPS_ALL = st.one_of(OP_ADD, OP_ADD, OP_ADD, OP_ADD, OP_LINK, OP_LINK, OP_INS, OP_INS, OP_INS, OP_PLUS, OP_REP, OP_REP, OP_CTX)
 SINK = st.fixed_dictionaries(dict(force=st.booleans(), perm=st.lists(st.integers(0, 9), max_size=8), x=st.lists(IDX, max_size=2), t=TASK))
 
 
 def _script(ops):
-    return st.fixed_dictionaries(dict(ops=st.lists(ops, min_size=2, max_size=10), sink=SINK, ldc=st.integers(0, 9)))
+    return st.fixed_dictionaries(dict(init=st.lists(TASK, max_size=3), ops=st.lists(ops, min_size=2, max_size=10), sink=SINK, ldc=st.integers(0, 9)))
 
 
 def strategy_build():
@@ -185,7 +188,9 @@ class Build:
         from pharmpy.workflows.workflow import insert_context
 
         op = step['op']
-        if op == 'add':
+        if op == 'init':
+            wb = WorkflowBuilder(tasks=[self.task[x] for x in step['labels']], name='c17')
+        elif op == 'add':
             preds = [self.task[p] for p in step['preds']]
             if step['single']:
                 wb.add_task(self.task[step['task']], predecessors=preds[0])
@@ -355,8 +360,10 @@ _counter = itertools.count()
 def render(P):
     out = []
     for s in P.steps:
-        if s['op'] == 'add':
-            out.append(f"add_task({desc(P, s['task'])}, predecessors={s['preds']})")
+        if s['op'] == 'init':
+            out.append(f"WorkflowBuilder(tasks={[desc(P, x) for x in s['labels']]})")
+        elif s['op'] == 'add':
+            out.append(f"add_task({'EXISTING ' if s.get('existing') else ''}{desc(P, s['task'])}, predecessors={s['preds']})")
         elif s['op'] == 'ins':
             out.append(f"insert_workflow({'WB' if s['as_builder'] else 'WF'}{[(desc(P, a), d) for a, d in zip(s['labels'], s['decl'])]}, predecessors={s['preds']})")
         elif s['op'] == 'plus':
@@ -606,8 +613,22 @@ def selfcheck():
     b4 = base.copy()
     if b4.insert(one) != 'N1' or b4.preds('o') != ['x', 'y', 'z']:
         raise HarnessError('N:1 insertion')
+    # add_task on a task that is already present declares further edges; entry order decides the argument order
+    r5 = wfref.RefWF()
+    r5.add_task('u', ['v'])  # v enters through the edge, after u
+    r5.add_task('w')
+    r5.add_task('u', ['w'])
+    r5.add_task('v', ['w'])
+    if r5.nodes != ['u', 'v', 'w'] or r5.edges != {('v', 'u'), ('w', 'u'), ('w', 'v')} or r5.preds('u') != ['v', 'w']:
+        raise HarnessError('add_task on an existing task')
+    if r5.descendants('w') != {'u', 'v'} or r5.descendants('u') != set():
+        raise HarnessError('descendants')
+    Pl = wfref.plan({'ops': [{'o': 'add'}, {'o': 'add'}, {'o': 'link', 'i': 1, 'p': [1, 0]}]})
+    if ('t0', 't1') not in Pl.ref.edges or 'add_task_existing' not in Pl.classes:
+        raise HarnessError('link op')
+    Pl.ref.topo()
     # the spec interpreter is total on junk
-    for junk in ({}, {'ops': [{}, {'o': 'rep'}, {'o': 'ins'}, {'o': 'ctx'}, 3]}, {'ops': [{'o': 'add'}], 'sink': 0}):
+    for junk in ({}, {'ops': [{}, {'o': 'rep'}, {'o': 'ins'}, {'o': 'ctx'}, {'o': 'link'}, 3], 'init': [0, {}]}, {'ops': [{'o': 'add', 'fresh': 0}], 'sink': 0, 'init': 5}):
         P = wfref.plan(junk)
         if len(P.ref.outputs()) != 1:
             raise HarnessError('plan() must end in one sink')
